@@ -1,5 +1,5 @@
 """C04 - network state mirrors what the nodes reported; callbacks are exact."""
-from .. import core
+from .. import core, gen
 from ..core import Result
 from ..lockprops import VERSIONS, make_jobs, replay_lock, run_lock_job
 from ..lockstep import run_history
@@ -18,6 +18,8 @@ def jobs(tier, seed):
     for i in range(8 if q else 32):
         out.append({"kind": "cbraise", "seed": seed, "i": i, "n": 30 if q else 150})
     out.append({"kind": "setters", "seed": seed, "n": 4000 if q else 40000})
+    for i in range(4 if q else 16):
+        out.append({"kind": "nested", "seed": seed, "i": i, "n": 10 if q else 40})
     for v in VERSIONS:
         out.append({"kind": "exhaustive", "version": v, "depth": 3 if q else 4})
     return out
@@ -139,16 +141,81 @@ def run_exhaustive(job, res):
     res.sample({"mode": "exhaustive", "version": version, "alphabet": alpha, "depth": job["depth"]})
 
 
+def run_nested(job, res):
+    """The event callback hands messages to a gateway while it runs: (a) to ANOTHER gateway of the process (a bridge between
+    two networks) - that gateway must behave exactly as if it had been fed directly, callbacks included; (b) to the SAME
+    gateway (the controller injects a line) - the injected message is handled and announced like any other."""
+    from ..drive import Engine, strict
+
+    rng = core.rng_for(ID, "nested", job["seed"], job["i"])
+    for h in range(job["n"]):
+        version = VERSIONS[h % len(VERSIONS)]
+        flavour = ["sync", "async"][h % 2]
+        lines_b = [s[1] for s in gen.history(rng, version, 40, {"garbage": 0.1, "ctl": 0.0, "sleep": True, "ota": False, "unicode": 0.2}) if s[0] == "in"]
+        lines_a = [s[1] for s in gen.history(rng, version, 60, {"garbage": 0.05, "ctl": 0.0, "sleep": False, "ota": False}) if s[0] == "in"]
+        ref = Engine(flavour, version)
+        for line in lines_b:
+            ref.feed(line)
+        a, b = Engine(flavour, version), Engine(flavour, version)
+        todo = list(lines_b)
+
+        def bridge(msg):
+            if todo:
+                b.feed(todo.pop(0))
+
+        a.cb_hook = bridge
+        for line in lines_a:
+            a.feed(line)
+        fed = len(lines_b) - len(todo)
+        for line in todo:            # whatever is left is fed directly, so that the comparison covers the whole list
+            b.feed(line)
+        res.evals += 1
+        res.count("bridged_lines", fed)
+        case = {"mode": "nested", "version": version, "flavour": flavour, "lines_a": lines_a, "lines_b": lines_b}
+        cb_ref = [c[1] for c in ref.cbs]
+        cb_b = [c[1] for c in b.cbs]
+        if cb_b != cb_ref:
+            res.violation(f"nested:other-gateway-callbacks-differ:{'fewer' if len(cb_b) < len(cb_ref) else 'more' if len(cb_b) > len(cb_ref) else 'other'}",
+                          f"a gateway fed from inside another gateway's event callback ({fed} of {len(lines_b)} lines) called back {len(cb_b)} times, "
+                          f"fed directly {len(cb_ref)} times", case)
+        elif strict(projection(b.gw.sensors)) != strict(projection(ref.gw.sensors)):
+            res.violation("nested:other-gateway-state-differs", "a gateway fed from inside another gateway's event callback ends in another state than when fed directly", case)
+        if fed >= 3:
+            res.nontrivial(("nested", version, flavour, h))
+        # (b) the same gateway
+        g = Engine(flavour, version)
+        inj = {"done": False}
+
+        def inject(msg):
+            if not inj["done"] and msg.type == 0 and msg.child_id == 255:
+                inj["done"] = True
+                g.gw.logic(f"{msg.node_id};7;0;0;6;injected")
+
+        g.cb_hook = inject
+        g.feed(f"5;255;0;0;17;{version}")
+        g.feed("5;1;0;0;3;d")
+        kinds = [c[1][:5] for c in g.cbs]
+        res.count("injected_lines")
+        if 7 not in projection(g.gw.sensors).get(5, {}).get("ch", {}):
+            res.violation("nested:injected-line-not-handled", "a child presentation handed to logic() from inside the event callback did not create the child", case)
+        elif (5, 7, 0, 0, 6) not in kinds:
+            res.violation("nested:injected-line-not-announced", f"a child presentation handed to logic() from inside the event callback was stored but never announced (callbacks: {kinds})", case)
+
+
 def run(job):
     k = job.get("kind", "lock")
     if k == "lock":
         return run_lock_job(ID, job, normal_forms)
     res = Result()
-    {"cbraise": run_cbraise, "setters": run_setters, "exhaustive": run_exhaustive}[k](job, res)
+    {"cbraise": run_cbraise, "setters": run_setters, "exhaustive": run_exhaustive, "nested": run_nested}[k](job, res)
     return res
 
 
 def replay(case):
+    if case.get("mode") == "nested":
+        res = Result()
+        run_nested({"seed": 0, "i": 0, "n": 10}, res)
+        return res
     if case.get("mode") == "cbraise":
         res = Result()
         run_one = case
